@@ -522,6 +522,44 @@ func runC14(c *Ctx, r *Report, tier string) {
 				hasRet = true
 			}
 		}
+		if !hasRet && lp != nil {
+			// the error may be returned a few steps later (the unknown-item test repeated after the ignoring test): with
+			// what is known when this test is reached, no path from the non-ignoring edge gets back to the loop or to a setter
+			var init []nilKnow
+			for _, f := range c.domFacts(b) {
+				if f.Alts != nil {
+					continue
+				}
+				if bo, ok := c.resolve(f.Cond).(*ssa.BinOp); ok && (isConstNil(bo.X) || isConstNil(bo.Y)) && (bo.Op == token.EQL || bo.Op == token.NEQ) {
+					v := bo.X
+					if isConstNil(bo.X) {
+						v = bo.Y
+					}
+					init = append(init, nilKnow{v, (bo.Op == token.EQL) == f.Pos})
+				}
+				// len(groups) == 0 style tests are literals: handled by Facts below
+			}
+			q := &PathQ{c: c, Fn: ip, InitNil: init, Facts: c.newFacts(ip)}
+			st, _ := q.Facts.edge(b, 1-si, factUnknown)
+			for _, f := range c.domFacts(b) {
+				if f.Alts == nil && f.If != nil {
+					for k, s := range f.If.Block().Succs {
+						_ = s
+						if (k == 0) == f.Pos {
+							st, _ = q.Facts.edge(f.If.Block(), k, st)
+						}
+					}
+				}
+			}
+			_, escapes := q.Reach(Site{other, 0}, st, func(x ssa.Instruction) bool {
+				if x == lp.Header.Instrs[0] {
+					return true
+				}
+				ci, ok := x.(ssa.CallInstruction)
+				return ok && (c.calleeName(ci.Common()) == "(*Option).Set" || c.calleeName(ci.Common()) == "(*Option).setDefault")
+			})
+			hasRet = !escapes
+		}
 		r.Check(hasRet, "UNKNOWN", ipn, "without IgnoreUnknown the item is an error", c.ipos(iff), "the other edge returns an error", "the non-ignoring edge does not return")
 	}
 	if nIgn < 2 {
